@@ -18,6 +18,8 @@ import (
 	"io/ioutil"
 	"math/rand"
 	"os"
+	"runtime/debug"
+	"sort"
 	"sync"
 
 	"go.dedis.ch/kyber/v3/suites"
@@ -33,7 +35,12 @@ import (
 var suite = suites.MustFind("Ed25519")
 
 // all registered services; a history uses a subset (by index)
-var allNames = []string{"Alpha", "Beta", "AlphaBeta", "Alphaversio", "Alph", "Alphaversion", "Alpha_x", "Beta_"}
+var allNames = []string{"Alpha", "Beta", "AlphaBeta", "Alphaversio", "Alph", "Alphaversion", "Alpha_x", "Beta_",
+	// lengths 11, 13, 19: not allocation size classes, so a []byte(name) has spare capacity
+	"ElevenBytes", "ThirteenBytes", "NineteenBytesName19"}
+
+// names that pairwise satisfy the side condition of the property
+var isoPool = []int{0, 1, 2, 3, 4, 8, 9, 10}
 
 // C16Val is the value type saved through Context.Save.
 type C16Val struct {
@@ -70,13 +77,19 @@ func ctx(name string) *onet.Context {
 // ---------------------------------------------------------------- input ----
 
 type opIn struct {
-	Kind string `json:"kind"` // save load loadraw savever loadver addput addget restart
-	Svc  int    `json:"svc"`  // index into Names
-	Key  []int  `json:"key,omitempty"`
-	Val  int    `json:"val,omitempty"` // value number (save) ; raw bytes number (addput)
-	Ver  int64  `json:"ver,omitempty"`
-	Bkt  []int  `json:"bkt,omitempty"`
-	Raw  []int  `json:"raw,omitempty"`
+	// save load loadraw savever loadver addput addget restart
+	// hold: GetAdditionalBucket(bkt), KEEP the returned (db, name) in Slot, Get(key) through it
+	// hput / hget: Put / Get through the name kept in Slot (no new GetAdditionalBucket)
+	// cadd: one goroutine per entry of Multi does GetAdditionalBucket(entry) and Put(key, raw_i) at once
+	Kind  string  `json:"kind"`
+	Slot  int     `json:"slot,omitempty"`
+	Multi [][]int `json:"multi,omitempty"`
+	Svc   int     `json:"svc"` // index into Names
+	Key   []int   `json:"key,omitempty"`
+	Val   int     `json:"val,omitempty"` // value number (save) ; raw bytes number (addput)
+	Ver   int64   `json:"ver,omitempty"`
+	Bkt   []int   `json:"bkt,omitempty"`
+	Raw   []int   `json:"raw,omitempty"`
 }
 
 type input struct {
@@ -85,8 +98,8 @@ type input struct {
 	Names []string `json:"names"`
 	Ops   []opIn   `json:"ops,omitempty"`
 	// conc
-	Writers int   `json:"writers,omitempty"`
-	PerW    int   `json:"perw,omitempty"`
+	Writers int     `json:"writers,omitempty"`
+	PerW    int     `json:"perw,omitempty"`
 	Keys    [][]int `json:"keys,omitempty"`
 }
 
@@ -109,6 +122,9 @@ func toInts(b []byte) []int {
 // value number -> value; sizes vary (empty payload, short, a few hundred bytes)
 func mkVal(n int) *C16Val {
 	sz := []int{0, 1, 3, 17, 64, 300}[n%6]
+	if n >= 100 { // big values: the bucket leaves bbolt's inline representation, pages get recycled
+		sz = 150 + (n%4)*60
+	}
 	d := make([]byte, sz)
 	for i := range d {
 		d[i] = byte((n*31 + i*7) % 256)
@@ -119,9 +135,10 @@ func mkVal(n int) *C16Val {
 // ---------------------------------------------------------------- server ---
 
 type world struct {
-	dir string
-	si  *network.ServerIdentity
-	srv *onet.Server
+	dir    string
+	si     *network.ServerIdentity
+	srv    *onet.Server
+	closed bool
 }
 
 func newWorld() (*world, error) {
@@ -146,8 +163,15 @@ func (w *world) restart() {
 	w.srv = onet.NewServerTCP(w.si, suite)
 }
 
+func (w *world) closeSrv() {
+	if !w.closed {
+		w.closed = true
+		w.srv.Close()
+	}
+}
+
 func (w *world) close() {
-	w.srv.Close()
+	w.closeSrv()
 	os.RemoveAll(w.dir)
 }
 
@@ -324,26 +348,218 @@ func run(raw json.RawMessage) lib.Case {
 			}
 		}
 	}
-	outs := make([]outc, len(in.Ops))
-	hist := make([]string, len(in.Ops))
+	debug.SetPanicOnFault(true) // a read of an unmapped database page becomes a panic (per goroutine)
+	var outs []outc
+	var hist []string
 	nontrivial := false
-	for i, op := range in.Ops {
-		if op.Kind == "restart" {
-			w.restart()
-			outs[i] = outc{K: "ok"}
-		} else {
-			c := ctx(in.Names[op.Svc])
-			if c == nil {
-				return lib.Case{Discard: true, Class: in.Class, Obs: "no context for " + in.Names[op.Svc]}
+	// everything handed to the services is kept and re-compared after every later operation
+	type kept struct {
+		pos  int
+		live func() []byte // reads the value as the service holds it
+		snap []byte        // what it was when handed out
+		bad  bool
+	}
+	var keeps []*kept
+	changed := []int{}
+	verify := func() {
+		for _, k := range keeps {
+			if k.bad {
+				continue
 			}
-			outs[i] = doOp(c, op)
-			if outs[i].K == "bytes" || outs[i].K == "ver" && outs[i].Ver != 0 {
-				nontrivial = true
+			same := func() (ok bool) {
+				defer func() {
+					if r := recover(); r != nil {
+						ok = false
+					}
+				}()
+				return bytes.Equal(k.live(), k.snap)
+			}()
+			if !same {
+				k.bad = true
+				changed = append(changed, k.pos)
 			}
 		}
-		hist[i] = "(" + coqOp(op, valBytes) + ", " + outs[i].coq() + ")"
 	}
-	coq := fmt.Sprintf("CHist %s %s %s", namesLit(in.Names), lib.List(dec), lib.List(hist))
+	keep := func(pos int, live func() []byte) {
+		func() {
+			defer func() { recover() }()
+			keeps = append(keeps, &kept{pos: pos, live: live, snap: append([]byte{}, live()...)})
+		}()
+	}
+	type slot struct {
+		db   *bbolt.DB
+		name []byte
+		bkt  []int
+	}
+	slots := map[[2]int]*slot{}
+	emit := func(coqop string, o outc) int {
+		outs = append(outs, o)
+		hist = append(hist, "("+coqop+", "+o.coq()+")")
+		if o.K == "bytes" || o.K == "ver" && o.Ver != 0 {
+			nontrivial = true
+		}
+		return len(outs) - 1
+	}
+	rawPut := func(db *bbolt.DB, bn, k, v []byte) (o outc) {
+		defer func() {
+			if r := recover(); r != nil {
+				o = outc{K: "crash", Msg: fmt.Sprint(r)}
+			}
+		}()
+		if err := db.Update(func(tx *bbolt.Tx) error { return tx.Bucket(bn).Put(k, v) }); err != nil {
+			return outc{K: "err", Msg: errClass(err)}
+		}
+		return outc{K: "ok"}
+	}
+	rawGet := func(db *bbolt.DB, bn, k []byte) (o outc) {
+		defer func() {
+			if r := recover(); r != nil {
+				o = outc{K: "crash", Msg: fmt.Sprint(r)}
+			}
+		}()
+		var out []byte
+		found := false
+		if err := db.View(func(tx *bbolt.Tx) error {
+			if v := tx.Bucket(bn).Get(k); v != nil {
+				found = true
+				out = append([]byte{}, v...)
+			}
+			return nil
+		}); err != nil {
+			return outc{K: "err", Msg: errClass(err)}
+		}
+		if !found {
+			return outc{K: "none"}
+		}
+		return outc{K: "bytes", B: toInts(out)}
+	}
+	for _, op := range in.Ops {
+		if op.Kind == "restart" {
+			w.restart()
+			slots = map[[2]int]*slot{} // the database handle of the old server is closed
+			emit("HRestart", outc{K: "ok"})
+			verify()
+			continue
+		}
+		c := ctx(in.Names[op.Svc])
+		if c == nil {
+			return lib.Case{Discard: true, Class: in.Class, Obs: "no context for " + in.Names[op.Svc]}
+		}
+		sl := slots[[2]int{op.Svc, op.Slot}]
+		switch op.Kind {
+		case "hold":
+			var o outc
+			func() {
+				defer func() {
+					if r := recover(); r != nil {
+						o = outc{K: "crash", Msg: fmt.Sprint(r)}
+					}
+				}()
+				db, bn := c.GetAdditionalBucket(toBytes(op.Bkt))
+				ns := &slot{db: db, name: bn, bkt: op.Bkt}
+				slots[[2]int{op.Svc, op.Slot}] = ns
+				o = rawGet(db, bn, toBytes(op.Key))
+			}()
+			pos := emit(fmt.Sprintf("HOp %d (OAddGet %s %s)", op.Svc, bytesLit(op.Bkt), bytesLit(op.Key)), o)
+			if ns := slots[[2]int{op.Svc, op.Slot}]; ns != nil {
+				keep(pos, func() []byte { return ns.name })
+			}
+		case "hput", "hget":
+			if sl == nil { // nothing held (any more): an ordinary additional-bucket operation
+				k := "addput"
+				if op.Kind == "hget" {
+					k = "addget"
+				}
+				op2 := op
+				op2.Kind = k
+				emit(coqOp(op2, valBytes), doOp(c, op2))
+			} else if op.Kind == "hput" {
+				emit(fmt.Sprintf("HOp %d (OAddPut %s %s %s)", op.Svc, bytesLit(sl.bkt), bytesLit(op.Key), bytesLit(op.Raw)),
+					rawPut(sl.db, sl.name, toBytes(op.Key), toBytes(op.Raw)))
+			} else {
+				emit(fmt.Sprintf("HOp %d (OAddGet %s %s)", op.Svc, bytesLit(sl.bkt), bytesLit(op.Key)),
+					rawGet(sl.db, sl.name, toBytes(op.Key)))
+			}
+		case "cadd":
+			res := make([]outc, len(op.Multi))
+			var wg sync.WaitGroup
+			for i := range op.Multi {
+				i := i
+				wg.Add(1)
+				go func() {
+					defer wg.Done()
+					res[i] = doOp(c, opIn{Kind: "addput", Svc: op.Svc, Bkt: op.Multi[i], Key: op.Key, Raw: []int{i + 1, op.Svc + 1, 77}})
+				}()
+			}
+			wg.Wait()
+			// puts into different buckets commute: reported in index order
+			for i := range op.Multi {
+				emit(fmt.Sprintf("HOp %d (OAddPut %s %s %s)", op.Svc, bytesLit(op.Multi[i]), bytesLit(op.Key), bytesLit([]int{i + 1, op.Svc + 1, 77})), res[i])
+			}
+		case "load":
+			// like doOp, but the decoded value stays with the "service"
+			var o outc
+			var val *C16Val
+			func() {
+				defer func() {
+					if r := recover(); r != nil {
+						o = outc{K: "crash", Msg: fmt.Sprint(r)}
+					}
+				}()
+				v, err := c.Load(toBytes(op.Key))
+				switch {
+				case err != nil:
+					o = outc{K: "err", Msg: errClass(err)}
+				case v == nil:
+					o = outc{K: "none"}
+				default:
+					buf, err := network.Marshal(v)
+					if err != nil {
+						o = outc{K: "err", Msg: "re-marshal: " + errClass(err)}
+					} else {
+						o = outc{K: "bytes", B: toInts(buf)}
+						val, _ = v.(*C16Val)
+					}
+				}
+			}()
+			pos := emit(coqOp(op, valBytes), o)
+			if val != nil {
+				keep(pos, func() []byte { return val.Data })
+			}
+		case "loadraw":
+			var o outc
+			var rawv []byte
+			func() {
+				defer func() {
+					if r := recover(); r != nil {
+						o = outc{K: "crash", Msg: fmt.Sprint(r)}
+					}
+				}()
+				b, err := c.LoadRaw(toBytes(op.Key))
+				switch {
+				case err != nil:
+					o = outc{K: "err", Msg: errClass(err)}
+				case b == nil:
+					o = outc{K: "none"}
+				default:
+					o = outc{K: "bytes", B: toInts(b)}
+					rawv = b
+				}
+			}()
+			pos := emit(coqOp(op, valBytes), o)
+			if rawv != nil {
+				keep(pos, func() []byte { return rawv })
+			}
+		default:
+			emit(coqOp(op, valBytes), doOp(c, op))
+		}
+		verify()
+	}
+	// the server is closed by the deferred w.close(); look once more afterwards
+	w.closeSrv()
+	verify()
+	sort.Ints(changed)
+	coq := fmt.Sprintf("CHist %s %s %s %s", namesLit(in.Names), lib.List(dec), lib.List(hist), lib.NatList(changed))
 	// compact observation for evidence / replay files
 	small := make([]outc, len(outs))
 	for i, o := range outs {
@@ -352,7 +568,7 @@ func run(raw json.RawMessage) lib.Case {
 			small[i].B = o.B[:24]
 		}
 	}
-	return lib.Case{Coq: coq, Class: in.Class, Obs: small, Nontrivial: nontrivial}
+	return lib.Case{Coq: coq, Class: in.Class, Obs: map[string]interface{}{"answers": small, "changed_after_being_handed_out": changed}, Nontrivial: nontrivial}
 }
 
 // runConc: Writers goroutines per (service,key) save distinct values concurrently
@@ -481,17 +697,21 @@ func runConc(w *world, in *input) lib.Case {
 // ---------------------------------------------------------------- generator -
 
 var keyPool = [][]int{{107}, {107, 49}, {100, 98, 86, 101, 114, 115, 105, 111, 110} /* "dbVersion" */, {0}, {255, 0, 1}, {}, {120}}
-var bktPool = [][]int{{120} /* "x" */, {}, {98, 107, 116}, {118, 101, 114, 115, 105, 111, 110} /* "version" */}
+var bktPool = [][]int{{120} /* "x" */, {}, {98, 107, 116}, {118, 101, 114, 115, 105, 111, 110}, /* "version" */
+	{97, 97} /* "aa" */, {98, 98} /* "bb" */, {97}, {98, 49}}
 
 func genHist(rng *rand.Rand, class string, nops int) input {
 	var names []string
 	switch class {
-	case "isolated":
-		// names satisfying the side condition: pick 2-4 of the first five
-		perm := rng.Perm(5)
+	case "isolated", "big":
+		// names satisfying the side condition: 2-4 of them, various lengths
+		perm := rng.Perm(len(isoPool))
 		k := 2 + rng.Intn(3)
+		if class == "big" {
+			k = 2
+		}
 		for _, i := range perm[:k] {
-			names = append(names, allNames[i])
+			names = append(names, allNames[isoPool[i]])
 		}
 	default: // clash: a base service plus at least one extension of it
 		switch rng.Intn(3) {
@@ -516,12 +736,62 @@ func genHist(rng *rand.Rand, class string, nops int) input {
 		}
 		return keyPool[rng.Intn(3)] // few keys: overwrites and cross-service collisions are frequent
 	}
+	valNo := func() int {
+		if class == "big" {
+			return 100 + rng.Intn(40)
+		}
+		return rng.Intn(12)
+	}
+	if class == "big" {
+		// fill every service bucket well beyond a quarter page, many keys
+		for s := range names {
+			for j := 0; j < 8; j++ {
+				in.Ops = append(in.Ops, opIn{Kind: "save", Svc: s, Key: []int{102, j}, Val: 100 + rng.Intn(40)})
+			}
+		}
+	}
+	// additional-bucket names a service holds on to (since the last restart)
+	held := map[int][]int{}
+	holdSome := func(s int) {
+		n := 2 + rng.Intn(2)
+		perm := rng.Perm(len(bktPool))
+		for j := 0; j < n; j++ {
+			slot := len(held[s])
+			held[s] = append(held[s], slot)
+			in.Ops = append(in.Ops, opIn{Kind: "hold", Svc: s, Slot: slot, Bkt: bktPool[perm[j]], Key: key()})
+		}
+	}
 	for i := 0; i < nops; i++ {
 		s := rng.Intn(len(names))
-		r := rng.Intn(100)
+		r := rng.Intn(112)
 		switch {
+		case r >= 100 && r < 104: // obtain several bucket names first, use them afterwards
+			holdSome(s)
+		case r >= 104 && r < 110:
+			if len(held[s]) == 0 {
+				holdSome(s)
+			}
+			slot := held[s][rng.Intn(len(held[s]))]
+			if rng.Intn(2) == 0 {
+				raw := []int{rng.Intn(256), rng.Intn(256), s}
+				in.Ops = append(in.Ops, opIn{Kind: "hput", Svc: s, Slot: slot, Key: key(), Raw: raw})
+			} else {
+				in.Ops = append(in.Ops, opIn{Kind: "hget", Svc: s, Slot: slot, Key: key()})
+			}
+		case r >= 110: // several buckets requested and written at once, then read back
+			perm := rng.Perm(len(bktPool))
+			n := 2 + rng.Intn(4)
+			var multi [][]int
+			for j := 0; j < n; j++ {
+				multi = append(multi, bktPool[perm[j]])
+			}
+			k := []int{99, rng.Intn(3)}
+			in.Ops = append(in.Ops, opIn{Kind: "cadd", Svc: s, Multi: multi, Key: k})
+			for _, b := range multi {
+				in.Ops = append(in.Ops, opIn{Kind: "addget", Svc: s, Bkt: b, Key: k})
+			}
 		case r < 22:
-			in.Ops = append(in.Ops, opIn{Kind: "save", Svc: s, Key: key(), Val: rng.Intn(12)})
+			in.Ops = append(in.Ops, opIn{Kind: "save", Svc: s, Key: key(), Val: valNo()})
 		case r < 40:
 			in.Ops = append(in.Ops, opIn{Kind: "load", Svc: s, Key: key()})
 		case r < 52:
@@ -551,6 +821,7 @@ func genHist(rng *rand.Rand, class string, nops int) input {
 			in.Ops = append(in.Ops, opIn{Kind: "addget", Svc: s, Bkt: bktPool[rng.Intn(len(bktPool))], Key: key()})
 		default:
 			in.Ops = append(in.Ops, opIn{Kind: "restart"})
+			held = map[int][]int{}
 		}
 	}
 	return in
@@ -558,9 +829,12 @@ func genHist(rng *rand.Rand, class string, nops int) input {
 
 func generate(rng *rand.Rand, tier string) []interface{} {
 	var ins []interface{}
-	nIso, nClash, nConc, maxOps := 170, 50, 12, 40
+	nIso, nClash, nConc, nBig, maxOps := 150, 40, 10, 24, 40
 	if tier != "quick" {
-		nIso, nClash, nConc, maxOps = 2500, 600, 120, 80
+		nIso, nClash, nConc, nBig, maxOps = 2200, 500, 100, 400, 80
+	}
+	for i := 0; i < nBig; i++ {
+		ins = append(ins, genHist(rng, "big", 10+rng.Intn(20)))
 	}
 	for i := 0; i < nIso; i++ {
 		ins = append(ins, genHist(rng, "isolated", 8+rng.Intn(maxOps-7)))
@@ -569,11 +843,11 @@ func generate(rng *rand.Rand, tier string) []interface{} {
 		ins = append(ins, genHist(rng, "clash", 8+rng.Intn(maxOps-7)))
 	}
 	for i := 0; i < nConc; i++ {
-		perm := rng.Perm(5)
+		perm := rng.Perm(len(isoPool))
 		k := 2 + rng.Intn(3)
 		var names []string
 		for _, j := range perm[:k] {
-			names = append(names, allNames[j])
+			names = append(names, allNames[isoPool[j]])
 		}
 		ins = append(ins, input{Kind: "conc", Class: "concurrent", Names: names,
 			Writers: 2 + rng.Intn(3), PerW: 2 + rng.Intn(4), Keys: [][]int{{107}, {107, 49}}[:1+rng.Intn(2)]})
@@ -616,7 +890,43 @@ func corpus() []interface{} {
 			{Kind: "save", Svc: 0, Key: []int{}, Val: 1},
 			{Kind: "load", Svc: 0, Key: []int{}},
 		}},
+		// one service (11-byte name) holds two additional bucket names at the same time
+		input{Kind: "hist", Class: "isolated", Names: []string{"ElevenBytes", "ThirteenBytes"}, Ops: []opIn{
+			{Kind: "hold", Svc: 0, Slot: 0, Bkt: []int{97, 97}, Key: k},
+			{Kind: "hold", Svc: 0, Slot: 1, Bkt: []int{98, 98}, Key: k},
+			{Kind: "hput", Svc: 0, Slot: 0, Key: k, Raw: []int{1}},
+			{Kind: "hput", Svc: 0, Slot: 1, Key: k, Raw: []int{2}},
+			{Kind: "hget", Svc: 0, Slot: 0, Key: k},
+			{Kind: "addget", Svc: 0, Bkt: []int{97, 97}, Key: k},
+			{Kind: "addget", Svc: 0, Bkt: []int{98, 98}, Key: k},
+			{Kind: "restart"},
+			{Kind: "addget", Svc: 0, Bkt: []int{97, 97}, Key: k},
+			{Kind: "cadd", Svc: 1, Multi: [][]int{{97}, {98}, {97, 97}, {98, 49}}, Key: k},
+			{Kind: "addget", Svc: 1, Bkt: []int{97}, Key: k},
+			{Kind: "addget", Svc: 1, Bkt: []int{98}, Key: k},
+			{Kind: "addget", Svc: 1, Bkt: []int{97, 97}, Key: k},
+			{Kind: "addget", Svc: 1, Bkt: []int{98, 49}, Key: k},
+		}},
+		// values loaded from a large bucket stay what they were, across later writes and a restart
+		bigCorpus(),
 	}
+}
+
+func bigCorpus() input {
+	in := input{Kind: "hist", Class: "big", Names: []string{"Alpha", "Beta"}}
+	for s := 0; s < 2; s++ {
+		for j := 0; j < 10; j++ {
+			in.Ops = append(in.Ops, opIn{Kind: "save", Svc: s, Key: []int{102, j}, Val: 100 + j + s})
+		}
+	}
+	k := []int{102, 3}
+	in.Ops = append(in.Ops, opIn{Kind: "load", Svc: 1, Key: k}, opIn{Kind: "loadraw", Svc: 1, Key: k})
+	for r := 0; r < 4; r++ {
+		in.Ops = append(in.Ops, opIn{Kind: "save", Svc: 0, Key: k, Val: 120 + r}, opIn{Kind: "save", Svc: 1, Key: k, Val: 130 + r},
+			opIn{Kind: "load", Svc: 1, Key: k})
+	}
+	in.Ops = append(in.Ops, opIn{Kind: "loadraw", Svc: 0, Key: k}, opIn{Kind: "restart"}, opIn{Kind: "load", Svc: 0, Key: k})
+	return in
 }
 
 var _ = bytes.Equal
@@ -631,7 +941,7 @@ func main() {
 			"few shared keys and bucket names, restarts on the same data directory; 'clash' histories use names violating the side condition " +
 			"(model comparison only); 'concurrent' cases run 2-4 savers per key and service with concurrent loaders; " +
 			"non-trivial = some load returned data; distinct = distinct Coq case term",
-		Shard:    40,
+		Shard:    15,
 		Generate: generate,
 		Run:      run,
 		Corpus:   corpus,
